@@ -266,6 +266,13 @@ class TimeCachingAdapter(Adapter, NoBranchAdapter, ABC):
         self._clear_cached_data(time)
         return data
 
+    def _finalize(self):
+        # remove the files of buffered data that was dumped to disk
+        for _t, d in self.data:
+            if isinstance(d, str):
+                os.remove(d)
+        self.data.clear()
+
     def _clear_cached_data(self, time):
         while len(self.data) > 1 and self.data[1][0] <= time:
             d = self.data.pop(0)
